@@ -204,6 +204,17 @@ CHECKS['C04'] = dict(
          '(documented rayon behaviour).',
     design='§4 C04 (plan) and §10.3 (as built)')
 
+CHECKS['C08'] = dict(
+    technique='sibling agreement between the two producers of an ordered result (sort comparator vs index order): guard analysis of the "already sorted" claim '
+              '(deciding conditions over MIR, closure discriminant reads) and the NULL arms of the sort comparator',
+    text='Decides the clause "the order is the same whether it comes from sorting or from an index" as far as it is structural: the sorting path places NULLs '
+         'last (checked on compare_sql_values), an index keeps NULL keys first, so every producer of an "already sorted" claim must re-decide the claim under a '
+         'test that no ordering column of the fetched rows is NULL. Written from a demonstrated defect (ORDER BY k and ORDER BY k LIMIT n returned the NULL rows '
+         'first once an index on k existed); fires on the pre-repair commit.',
+    note='The property was listed as not applicable in the plan; that stands for sortedness, LIMIT/OFFSET slicing and DISTINCT, which are properties of run-time '
+         'sequences. Agreement of index key order with the comparator for non-NULL keys is the C02 key pipeline.',
+    design='§10.3 C08 (as built) and §10.4')
+
 CHECKS['C05'] = dict(
     technique='layout agreement of delegating join operators (T14: schema vs row order under swapped delegation), construction analysis of the NOT IN -> anti join '
               'condition on the negated path, guard analysis of the EXISTS -> IN decorrelation (deciding conditions over MIR)',
@@ -279,7 +290,6 @@ CHECKS['C24'] = dict(
 NOT_APPLICABLE = {
     'C01': 'Equality of result multisets with a reference engine is a value-level semantic equivalence over all queries and data; no structural necessary condition beyond those claimed under C06/C21/C24 exists and a static rule cannot stand in for an oracle.',
     'C07': 'Aggregate definitions on every multiset are numeric results; the only structural prerequisite (hash/equality coherence of group keys) is C21.',
-    'C08': 'Sortedness, slice arithmetic and distinctness are properties of runtime sequences; parallel-sort stability is claimed under C04.',
     'C17': 'Ordered-multimap behaviour and well-formedness of the B+tree depend on fill levels and key sizes at run time (splits, merges, borrows); a static shape rule would not be a necessary condition of any clause.',
     'C32': 'View/CTE expansion equals inlining is a semantic equivalence; the schema-from-first-row behaviour is value dependent.',
 }
